@@ -98,7 +98,17 @@ func (m *RawManager) Node(id uint32) (node *RawNode, found bool) {
 func (m *RawManager) Nodes() []*RawNode {
 	m.mu.Lock()
 	defer m.mu.Unlock()
-	return m.nodes
+	// return a copy: the pool is re-sorted in place whenever a configuration is created
+	nodes := make([]*RawNode, len(m.nodes))
+	copy(nodes, m.nodes)
+	return nodes
+}
+
+// sortNodes sorts the pool of nodes by ID.
+func (m *RawManager) sortNodes() {
+	m.mu.Lock()
+	defer m.mu.Unlock()
+	OrderedBy(ID).Sort(m.nodes)
 }
 
 // Size returns the number of nodes in the Manager.
